@@ -666,7 +666,7 @@ class GroupResult(object):
         return d
 
 
-def run_group(name, harness, stubs=(), patches=True, feas_timeout_ms=3000, prove_timeout_ms=20000, max_paths=20000, expect_stub_hits=(), setup=None):
+def run_group(name, harness, stubs=(), patches=True, feas_timeout_ms=3000, prove_timeout_ms=20000, max_paths=20000, expect_stub_hits=(), setup=None, label_filter=None):
     """Explore all paths of harness(vc) and discharge its obligations."""
     t0 = time.time()
     res = GroupResult(name)
@@ -708,6 +708,8 @@ def run_group(name, harness, stubs=(), patches=True, feas_timeout_ms=3000, prove
                 if tag.startswith("admission:"):
                     res.admissions.add(tag[len("admission:"):])
             for ob in eng.obligations:
+                if label_filter and not any(k in ob.label for k in label_filter):
+                    continue  # this group is registered for a subset of its clauses (e.g. the frame clauses for C20)
                 if ob.kind == "must-fail":
                     # vacuity probe: one refutation per label is enough; cheap budget, no generalisation
                     if ob.label in probes_done:
